@@ -17,11 +17,13 @@ import (
 
 // vectors emitted by spec/Include.tla
 type incVector struct {
-	Inc     map[string][]string `json:"inc"`
-	Err     string              `json:"err"`
-	Order   []string            `json:"order"`
-	Reads   []string            `json:"reads"`
-	Diamond bool                `json:"diamond"`
+	Inc       map[string][]string `json:"inc"`
+	Err       string              `json:"err"`
+	Order     []string            `json:"order"`
+	Reads     []string            `json:"reads"`
+	Diamond   bool                `json:"diamond"`
+	Odd       string              `json:"odd"`
+	OddMerged bool                `json:"oddMerged"`
 }
 
 type incTree struct {
@@ -54,7 +56,7 @@ func (tr *incTree) specText(s string) string {
 	return s
 }
 
-func (tr *incTree) write(inc map[string][]string) error {
+func (tr *incTree) write(inc map[string][]string, odd string) error {
 	for id, p := range tr.path {
 		var sb strings.Builder
 		if specs := inc[id]; len(specs) > 0 {
@@ -66,6 +68,10 @@ func (tr *incTree) write(inc map[string][]string) error {
 		}
 		// marker items: the order of these in the merged sections is the merge order
 		fmt.Fprintf(&sb, "global {\n  marker: %s\n}\nrouting {\n  pname(%s) -> direct\n}\n", id, id)
+		if id == odd {
+			// a section name dae does not know (a typo of "routing"): it must survive the merge so that config.New can reject it
+			fmt.Fprintf(&sb, "routng {\n  marker: %s\n}\n", id)
+		}
 		if err := os.WriteFile(p, []byte(sb.String()), 0o600); err != nil {
 			return err
 		}
@@ -141,12 +147,12 @@ func TestVerifC17Include(t *testing.T) {
 	allowed := map[string]bool{"P/E/main.dae": true, "P/E/a.dae": true, "P/E/z.dae": true, "P/E/sub/b.dae": true}
 	for vi, v := range vecs {
 		res.Case()
-		if err := tr.write(v.Inc); err != nil {
+		if err := tr.write(v.Inc, v.Odd); err != nil {
 			t.Fatal(err)
 		}
 		w.drain() // forget the writes
-		key := fmt.Sprintf("c17-include:main=%v;a=%v;b=%v", v.Inc["main"], v.Inc["a"], v.Inc["b"])
-		repl := map[string]any{"includes": v.Inc}
+		key := fmt.Sprintf("c17-include:main=%v;a=%v;b=%v;odd=%s", v.Inc["main"], v.Inc["a"], v.Inc["b"], v.Odd)
+		repl := map[string]any{"includes": v.Inc, "file_with_unknown_section": v.Odd}
 		if vi < 2 {
 			res.Sample(repl)
 		}
@@ -198,6 +204,37 @@ func TestVerifC17Include(t *testing.T) {
 			}
 			if strings.Join(got, ",") != strings.Join(v.Order, ",") {
 				res.Failf(key+"|order", repl, "include lists %v: section %s merged in order %v, the listed order gives %v", v.Inc, sec.Name, got, v.Order)
+			}
+		}
+		// a section of unknown name is carried through the merge, from whichever file it comes, and then rejected by config.New
+		hasOdd := false
+		for _, sec := range sections {
+			if sec.Name == "routng" {
+				hasOdd = true
+			}
+		}
+		res.Eval(1)
+		if hasOdd != v.OddMerged {
+			res.Failf(key+"|odd", repl, "include lists %v, file %s carries a section named routng: after merging the section is present=%v, expected %v (an unknown section must reach config.New, which rejects it)", v.Inc, v.Odd, hasOdd, v.OddMerged)
+		} else if v.OddMerged {
+			// (the marker items are instrumentation of this harness, not dae keys: taken out before the typed layer sees the sections)
+			var typed []*config_parser.Section
+			for _, sec := range sections {
+				if sec.Name != "global" {
+					typed = append(typed, sec)
+					continue
+				}
+				g := &config_parser.Section{Name: sec.Name}
+				for _, it := range sec.Items {
+					if pr, ok := it.Value.(*config_parser.Param); ok && pr.Key == "marker" {
+						continue
+					}
+					g.Items = append(g.Items, it)
+				}
+				typed = append(typed, g)
+			}
+			if _, nerr := New(typed); nerr == nil || !strings.Contains(nerr.Error(), "routng") {
+				res.Failf(key+"|oddnew", repl, "include lists %v, file %s carries a section named routng: config.New answered %v, expected a rejection naming it", v.Inc, v.Odd, nerr)
 			}
 		}
 		// every file the merge needed was indeed one of the allowed ones (sanity of the vector)
